@@ -25,6 +25,7 @@ pub fn exec_case(slice: &str, lines: &[String]) -> Vec<String> {
         "bank" => bank::exec_bank(lines),
         "addr" => addr::exec_addr(lines),
         "route" => route::exec_route(lines),
+        "wasm-legacy" => wasm::exec_wasm_legacy(lines),
         s if s.starts_with("wasm") => wasm::exec_wasm(lines),
         _ => panic!("unknown slice {}", slice),
     });
@@ -53,6 +54,7 @@ pub fn gen_case(slice: &str, rng: &mut Rng, thorough: bool) -> Vec<String> {
         "wasm-resp" => wasm_gen2::gen_resp(rng, thorough),
         "wasm-iso" => wasm_gen2::gen_iso(rng, thorough),
         "wasm-det" => wasm_gen2::gen_det(rng, thorough),
+        "wasm-legacy" => wasm_gen2::gen_legacy(rng, thorough),
         _ => panic!("unknown slice {}", slice),
     }
 }
